@@ -145,7 +145,7 @@ fn props() -> Vec<Property> {
     Property {
         id: "C02",
         title: "Client observes exactly the messages, metadata and status the server produced",
-        scenarios: vec![scn_c02_f(), scn_n_calls(), scn_n_calls_kill(), scn_n_server_view()],
+        scenarios: vec![scn_c02_f(), scn_n_calls(), scn_n_calls_kill(), scn_n_server_view(), Scenario { name: "F-foreign-to-client", engine: "F", run: c08::run_to_client, quick: 20_000, thorough: 600_000, grid: 0, what: "a foreign server peer answers a generated client with response headers, messages and trailers it composed itself (OK or error, also headers-then-error-trailers for unary calls): the caller's outcome and the metadata carried by an error" }],
         rule: "one run = 1..3 calls (shape, request messages+metadata, handler script: k messages then OK or Status(code,msg,details,metadata), possibly refused at call time) x compression config x codec buffer settings x readiness of sources and both bodies x re-chunking of both bodies; non-trivial = an error script, an injected Pending or a re-cut frame; distinct = distinct hash of all structural tape decisions",
         real_vs_stub: RVS_F.to_vec(),
         assumptions: vec!["fault-free and fault-injecting (connection kill) configurations are separate scenarios with separate oracles; under a kill a call may fail with any status but never succeeds with wrong or missing data", "engine N varies interleavings through the seams (transport readiness, stalls, windows, start offsets, handler gaps); tokio's run queue itself is FIFO"],
